@@ -127,6 +127,25 @@ def _run(rec, sim, R, V, f1, f2, cl, conc, au, tr, srv):
             V('ws-open-not-working', 'websocket-only session does not carry '
               'messages both ways')
             return
+        # polling requests naming the session are not served either,
+        # whatever transport their query string claims
+        n1 = len(sim.events)
+        for label in ('polling', 'websocket'):
+            tp = sim.request('POST', {'transport': label, 'EIO': '4',
+                                      'sid': s.sid}, {}, body=b'4viapost')
+            tg = sim.request('GET', {'transport': label, 'EIO': '4',
+                                     'sid': s.sid}, {})
+            sim.quiesce()
+            if any(e['ev'] == 'message' and e['data'] == 'viapost'
+                   for e in sim.events[n1:]) or \
+                    (tp.done and tp.code == 200) or \
+                    (tg.done and tg.code == 200):
+                V('disallowed-transport-used', 'websocket-only server: HTTP '
+                  'requests labelled transport=%s naming the session were '
+                  'served: POST %r GET %r %r, events %r' % (
+                      label, tp.status, tg.status, tg.body,
+                      [(e['ev'], e.get('data')) for e in sim.events[n1:]]))
+                return
         # a session opened on WebSocket refuses upgrade attempts too, without
         # disturbing its socket
         rec.count('second_upgrade_refused')
@@ -178,6 +197,22 @@ def _run(rec, sim, R, V, f1, f2, cl, conc, au, tr, srv):
             V('disallowed-transport-used', 'polling-only server used the '
               'websocket: transport=%r frames=%r' % (
                   sim.transport_of(s.sid), ws.texts()))
+            return
+        # the same handshake request labelled transport=polling (the label
+        # does not make it a poll: it carries the upgrade headers)
+        ws2, t2 = sim.ws_request({'transport': 'polling', 'EIO': '4',
+                                  'sid': s.sid})
+        sim.quiesce()
+        ws2.send('2probe')
+        sim.quiesce()
+        ws2.send('5')
+        sim.quiesce()
+        if ws2.accepted or ws2.frames or \
+                sim.transport_of(s.sid) != 'polling':
+            V('disallowed-transport-used', 'polling-only server: a WebSocket '
+              'handshake labelled transport=polling was accepted=%r, frames '
+              '%r, transport() now %r' % (ws2.accepted, ws2.texts(),
+                                          sim.transport_of(s.sid)))
         return
     if not ws.accepted:
         V('upgrade-not-accepted', 'upgrade request of a live polling session '
